@@ -276,4 +276,119 @@ def c08(driver):
     return mon
 
 
-REGISTRY = {'c01': c01, 'c03': c03, 'c06': c06, 'c08': c08}
+def wref_parts(name):
+    """w/<version>/<source> -> (version, source) or None."""
+    if not name.startswith('w/'):
+        return None
+    ver, sep, src = name[2:].partition('/')
+    if not sep or not ver.replace('.', '').isdigit():
+        return None
+    return ver, src
+
+
+def c19(driver):
+    """Integration branches and pull requests are one-to-one with their
+    parent; decline/merge clean up exactly the parent's ones."""
+    from .faults import targets_of
+
+    def mon(w, pre, ev, obs, post):
+        out, stats = [], {}
+        hs = heads(post)
+        dnames = list(dests(post))
+        parents = {p['src']: p for p in post['prs'] if p['author'] != ROBOT}
+        children = [p for p in post['prs'] if p['author'] == ROBOT]
+        seen = {}
+        for c in children:
+            if c['state'] != 'OPEN':
+                continue
+            stats['c19_open_children'] = stats.get('c19_open_children', 0) + 1
+            k = (c['src'], c['dst'])
+            seen[k] = seen.get(k, 0) + 1
+            parts = wref_parts(c['src'])
+            par = parents.get(parts[1]) if parts else None
+            if par is None:
+                out.append({'property': 'C19', 'msg':
+                            'open integration pull request %d (%s) has no '
+                            'parent pull request' % (c['id'], c['src'])})
+                continue
+            want = 'INTEGRATION [PR#%d > %s] %s' % (par['id'], c['dst'],
+                                                    par['title'])
+            if c['title'] != want:
+                out.append({'property': 'C19', 'msg':
+                            'integration pull request %d is titled %r, '
+                            'expected %r' % (c['id'], c['title'], want)})
+            if c['dst'].split('/', 1)[1] != parts[0]:
+                out.append({'property': 'C19', 'msg':
+                            'integration pull request %d goes from %s to %s'
+                            % (c['id'], c['src'], c['dst'])})
+        for k, n in seen.items():
+            if n > 1:
+                out.append({'property': 'C19', 'fingerprint':
+                            'duplicate-integration-pr', 'msg':
+                            '%d open integration pull requests %s -> %s '
+                            '(after %s)' % (n, k[0], k[1], ev)})
+        # integration branches only for targets beyond the first
+        for b in hs:
+            parts = wref_parts(b)
+            if not parts:
+                continue
+            par = parents.get(parts[1])
+            if par is None:
+                continue
+            T = targets_of(par['dst'], dnames + [par['dst']])
+            versions = [t.split('/', 1)[1] for t in T[1:]]
+            if parts[0] not in versions and par['dst'] in dnames:
+                out.append({'property': 'C19', 'msg':
+                            'integration branch %s is not for a target '
+                            'beyond the first of pull request %d (%s)' % (
+                                b, par['id'], T)})
+        status = obs.get('status')
+        # decline: exactly the parent's children / branches
+        if status == 'PullRequestDeclined':
+            k = evaluated_pr(pre, ev)
+            par = [p for p in pre['prs'] if p['id'] == k]
+            if par:
+                stats['c19_declines'] = 1
+                src = par[0]['src']
+                mine = {b for b in heads(pre) if wref_parts(b) and
+                        wref_parts(b)[1] == src}
+                gone = set(heads(pre)) - set(hs)
+                changed = {b for b in hs if b in heads(pre) and
+                           heads(pre)[b] != hs[b]} | (set(hs) -
+                                                      set(heads(pre)))
+                if gone != mine or changed:
+                    out.append({'property': 'C19', 'msg':
+                                'declining pull request %d deleted %s '
+                                '(its integration branches: %s), changed %s'
+                                % (k, sorted(gone), sorted(mine),
+                                   sorted(changed))})
+                before = {p['id']: p for p in pre['prs']}
+                declined = {p['id'] for p in post['prs']
+                            if p['state'] == 'DECLINED' and
+                            before[p['id']]['state'] == 'OPEN'}
+                expect = {p['id'] for p in pre['prs']
+                          if p['author'] == ROBOT and p['state'] == 'OPEN'
+                          and p['src'] in mine}
+                if declined != expect:
+                    out.append({'property': 'C19', 'msg':
+                                'declining pull request %d declined %s, its '
+                                'open integration pull requests are %s' % (
+                                    k, sorted(declined), sorted(expect))})
+        if status in ('SuccessMessage', 'Merged'):
+            for p in post['prs']:
+                if p['author'] != ROBOT and p['state'] == 'MERGED':
+                    left = [b for b in hs if wref_parts(b) and
+                            wref_parts(b)[1] == p['src']]
+                    was = [q for q in pre['prs'] if q['id'] == p['id'] and
+                           q['state'] == 'OPEN']
+                    if left and was:
+                        out.append({'property': 'C19', 'msg':
+                                    'pull request %d is merged but %s '
+                                    'remain' % (p['id'], left)})
+                    if was:
+                        stats['c19_merges'] = stats.get('c19_merges', 0) + 1
+        return out, stats
+    return mon
+
+
+REGISTRY = {'c01': c01, 'c03': c03, 'c06': c06, 'c08': c08, 'c19': c19}
